@@ -41,6 +41,10 @@ def run(ctx):
         # two files whose lists of runs differ (a common run sits at different positions in them): slices of every input, on fresh objects and on one
         dscommon.run_family(ctx, "C11Two", fmt="text", always_nontrivial=True)
         dscommon.run_family(ctx, "C11Two", fmt="netcdf", always_nontrivial=True, fresh=False)
+        # text files that give the run as date + hour columns (runs at 06, 12, 18, 23 UTC and 00:30 on consecutive rows): the buckets are
+        # those of the run's own time (after seed C11-j)
+        dscommon.run_family(ctx, "C11All", fmt="text", variant={"time_format": "datehour"}, always_nontrivial=True)
+        dscommon.run_family(ctx, "C11Two", fmt="text", variant={"time_format": "datehour"}, always_nontrivial=True, fresh=False)
         # the buckets of a dataset are its own: another dataset (other runs, other lead times) is opened in the same process before the slices are asked for
         dscommon.run_family(ctx, "C11", fmt="text", limit=40, variant={"decoy": True}, always_nontrivial=True, fresh=False)
         dscommon.run_family(ctx, "C11All", fmt="text", variant={"decoy": True}, always_nontrivial=True, fresh=False)
@@ -57,6 +61,9 @@ def run(ctx):
         dscommon.run_family(ctx, "C11Two", fmt="text", always_nontrivial=True)
         dscommon.run_family(ctx, "C11Two", fmt="netcdf", always_nontrivial=True, fresh=False)
         dscommon.run_family(ctx, "C11Two", fmt="text", variant={"decoy": True}, always_nontrivial=True, fresh=False)
+        dscommon.run_family(ctx, "C11All", fmt="text", variant={"time_format": "datehour"}, always_nontrivial=True)
+        dscommon.run_family(ctx, "C11", fmt="text", variant={"time_format": "datehour"}, always_nontrivial=True)
+        dscommon.run_family(ctx, "C11Two", fmt="text", variant={"time_format": "datehour"}, always_nontrivial=True, fresh=False)
         dscommon.run_family(ctx, "C11", fmt="text", variant={"decoy": True}, always_nontrivial=True, fresh=False)
         dscommon.run_family(ctx, "C11All", fmt="text", variant={"decoy": True}, always_nontrivial=True, fresh=False)
         calreplay.run(ctx, "MC_Calendar_full")
